@@ -32,3 +32,11 @@ Example C16_nonvacuous :
   lookup 77 (by_peer r) = Some l1 /\ lookup 5 (by_label r) = Some l1 /\ lookup 9 (by_label r) = None /\
   routes r = [(77, 77, true)].
 Proof. vm_compute. repeat split; reflexivity. Qed.
+
+(* ---------- lock discipline of the operations the model treats as atomic (go/ast obligation on the source under test) ---------- *)
+(* Every operation of the link registry the model takes as one step (AddLink, RemoveLink, the lookups by
+   peer / label / remote host, GetLinks, LinkCnt, IsStub, the listener and protocol registries) locks
+   its mutex first and defers the unlock: 15 methods, recomputed from peering/*.go on every run. *)
+Theorem C16_lock_discipline : Gen.lock_discipline_peering = true.
+Proof. repeat split; reflexivity. Qed.
+Print Assumptions C16_lock_discipline.
